@@ -12,6 +12,12 @@ ENGINES = [
      'kind_free_text': 'preemption-bounded controlled scheduler over compiler-inserted load/store hooks with conflict (race) monitor'},
 ]
 TEXT = {
+    'C15': {
+        'level': 'Exhaustive over small alphabets on the real operators: all ordered pairs and all triples of the 121 strings of length <=4 over {a,b,0x01} through String, StringView, the const C* overloads and StringUtils::IsLess/IsGreater in char/char16_t/char32_t against the lexicographic reference (trichotomy, <=/>= unions, prefix-first, transitivity); all pairs and triples of 36 values of every kind including pointer-to-value; every array of length <=5 over 4 values (duplicates, prefix chain) through Array<int>, Array<String>, Value arrays, <loop sort>, HArray keys and Value object keys with and without a removed member, ascending and descending (ordered permutation, lookups afterwards, caller\'s value untouched).',
+        'design_ref': 'DESIGN.md §5 C15',
+        'note': 'String units below 0x80 only (signedness of char is not part of the property).',
+        'technique': 'exhaustive enumeration of pairs/triples/small arrays on the implementation',
+    },
     'C13': {
         'level': 'Explicit-state breadth-first search (depth 4 quick / 5 thorough, canonical slot-layout dedup) over a 60-operation alphabet (all Insert overloads, get-or-create, Remove by key/index, Rename, merge by copy/move, Reserve/Resize/Expect/Compress/Clear/Reset, Sort both ways, copy/move construction and assignment) on two registers of HArray<String,String> and HList<String>, with keys chosen by the real hash function to collide at capacities 2/4/8 (plus empty key, embedded NUL, equal low-16-bit hashes). After every transition every lookup function is compared with an ordered-map model for all alphabet keys and an absent key, key<->index agreement and live iteration order are checked, and the structural invariants of the one-block table are verified (capacity power of two, every live item exactly once on the chain of Hash&(cap-1), acyclic chains, fresh stored hashes).',
         'design_ref': 'DESIGN.md §5 C13',
